@@ -12,7 +12,7 @@ sys.path.insert(0, os.path.dirname(os.path.abspath(__file__)))
 sys.path.insert(0, os.path.join(os.path.dirname(os.path.dirname(os.path.abspath(__file__))), "tools"))
 import vlib  # noqa: E402
 
-OWN = ["SameTsInSample", "TsNoDrift", "SeqPlusOne", "DropSkips"]
+OWN = ["SameTsInSample", "TsNoDrift", "SeqPlusOne", "DropSkips", "BindingsAgree"]
 
 
 def simulate(ctx, cfg, num, depth):
@@ -34,7 +34,9 @@ def run(ctx):
     vlib.tlc_model(ctx, "SampleTrack", "SampleTrack_MC2" if quick else "SampleTrack_MC", workers=8)
     vlib.tlc_model(ctx, "SampleTrack", "SampleTrack_Deep6" if quick else "SampleTrack_Deep9", workers=4)
     alt = {}
-    for cfg in ("SampleTrack_trunc", "SampleTrack_nodropdur"):
+    # bind / unbind events between samples, with and without WithRTPSequenceNumber (exhaustive, small alphabet)
+    vlib.tlc_model(ctx, "SampleTrack", "SampleTrack_Rebind", workers=2)
+    for cfg in ("SampleTrack_trunc", "SampleTrack_nodropdur", "SampleTrack_rebindseq"):
         r = vlib.tlc_expect_violation(ctx, "SampleTrack", cfg, workers=2)
         found = [ln for ln in r.stdout.splitlines() if ln.startswith("Error: Invariant")]
         alt[cfg] = found[0] if found else "none (rc=%s)" % r.rc
@@ -46,7 +48,7 @@ def run(ctx):
         vecs += simulate(ctx, "SampleTrack_Sim5000", 8, 5005)
     for i, v in enumerate(vecs):
         v["id"] = i
-    nsamples = sum(len(v["samples"]) for v in vecs)
+    nsamples = sum(1 for v in vecs for e in v["events"] if e["k"] == "sample")
     ctx.log("%d behaviours, %d samples" % (len(vecs), nsamples))
     infile = vlib.write_json(os.path.join(ctx.work, "vectors.json"), vecs)
     trace = os.path.join(ctx.work, "trace.ndjson")
@@ -60,12 +62,22 @@ def run(ctx):
     lines = vlib.read_ndjson(trace)
     samples = [ln for ln in lines if ln.get("ev") == "sample"]
     ctx.cov["evaluations"] = len(samples)
-    ctx.cov["packets_observed"] = sum(len(s["pk"]) for s in samples)
+    ctx.cov["packets_observed"] = sum(len(r["pk"]) for s in samples for r in s["recv"])
+    ctx.cov["samples_with_two_senders"] = sum(1 for s in samples if len(s["recv"]) >= 2)
+    ctx.cov["bind_unbind_events"] = sum(1 for ln in lines if ln.get("ev") in ("bind", "unbind")) - len(vecs)
+    # model drift (never a verdict): with WithRTPTimestamp given, the timestamp offset the model (exact remainder)
+    # predicts vs. what pion (float64 remainder) produced
+    starts = {ln["t"]: ln for ln in lines if ln.get("ev") == "start"}
+    cmpd = [s for s in samples if starts[s["t"]]["tsopt"] and s["recv"] and s["recv"][0]["pk"]]
+    ctx.cov["model_drift_samples_compared"] = len(cmpd)
+    ctx.cov["model_drift_ts_differs"] = sum(1 for s in cmpd if s["recv"][0]["pk"][0]["tsd"] != s["ets"])
+    ctx.cov["model_drift_ts_differs_by_more_than_a_tick"] = sum(1 for s in cmpd if abs(s["recv"][0]["pk"][0]["tsd"] - s["ets"]) > 1)
     ctx.cov["traces_validated_against_impl"] = len(vecs)
-    ctx.cov["longest_behaviour"] = max(len(v["samples"]) for v in vecs)
+    ctx.cov["longest_behaviour"] = max(len(v["events"]) for v in vecs)
     ctx.cov["codecs"] = sorted({ln["mime"] for ln in lines if ln.get("ev") == "start"})
-    ctx.cov["samples"] = [{"rate": vecs[0]["rate"], "start": vecs[0]["start"], "samples": vecs[0]["samples"][:4]}] + \
-        [{k: s[k] for k in ("sig", "d", "drop", "pk")} for s in samples[:3]]
+    ctx.cov["samples"] = [{"rate": vecs[0]["rate"], "start": vecs[0]["start"], "seqopt": vecs[0]["seqopt"],
+                           "tsopt": vecs[0]["tsopt"], "events": vecs[0]["events"][:4]}] + \
+        [{k: s[k] for k in ("sig", "d", "drop", "recv")} for s in samples[:3]]
     missing = [p for p in OWN if not ctx.cov["predicates"].get(p)]
     if missing:
         raise vlib.NoVerdict("predicates never exercised: %s" % missing)
@@ -76,8 +88,8 @@ def run(ctx):
     def replay_of(v):
         rec = keep.get(v["trace"], [])
         i = next((j for j, ln in enumerate(rec) if ln.get("sig") and v["sig"].endswith(ln["sig"])), 0)
-        return {"vector_head": {k: vecs[v["trace"]][k] for k in ("rate", "start")} if v["trace"] < len(vecs) else None,
-                "samples": vecs[v["trace"]]["samples"][:200] if v["trace"] < len(vecs) else None,
+        return {"vector_head": {k: vecs[v["trace"]][k] for k in ("rate", "start", "seqopt", "tsopt")} if v["trace"] < len(vecs) else None,
+                "events": vecs[v["trace"]]["events"][:200] if v["trace"] < len(vecs) else None,
                 "recorded_around": rec[max(0, i - 3):i + 3]}
 
     distinct = {(s["sig"]) for s in samples}
@@ -86,7 +98,8 @@ def run(ctx):
         ctx, "exploration",
         rule="TLC checks the transcribed WriteSample algorithm (exact remainder) exhaustively on short sequences and on "
              "every sampled behaviour; behaviours = TLC -simulate runs (seeded) of %s samples over 3 clock rates x 6 "
-             "durations x drops {0,1,3} x sizes {0,1,3 packets} x 3 start classes; one evaluation = one WriteSample call on "
+             "durations x drops {0,1,3} x sizes {0,1,3 packets} x 3 start classes x WithRTPSequenceNumber / WithRTPTimestamp "
+             "given or not, with Bind / Unbind of a second sender between samples; one evaluation = one WriteSample call on "
              "a real TrackLocalStaticSample judged by TLC with exact integer time; distinct = distinct (rate, duration, "
              "drop, packets)" % ("200" if quick else "200 and 5000"),
         distinct_nontrivial=len(distinct), exhaustive=False, replay_of=replay_of)
